@@ -78,13 +78,15 @@ type vsRun struct {
 
 	nextCapture int
 	brokenFiles int
-	lazyViews   int
-	snapFaults  int
-	mergeFaults int
-	views       [2]*vsView
-	mergesDone  int
-	importsDone int
-	tagDelivers int
+	// a call that does not return or work that does not settle ends the case as inconclusive instead of failing it
+	hangInconclusive bool
+	lazyViews        int
+	snapFaults       int
+	mergeFaults      int
+	views            [2]*vsView
+	mergesDone       int
+	importsDone      int
+	tagDelivers      int
 	// per delivered import: captures that were part of it (for C10a)
 	deliveredCaptures map[int]bool
 	pendingImports    [][]int // queue of capture index lists in ImportPcaps order
@@ -438,8 +440,20 @@ func (r *vsRun) stepImport() {
 	}
 }
 
+// inconclusive ends a case that cannot be judged (C20: a hang is no data race; whether background work settles is
+// C09's question, asked there under a schedule the harness owns). The case is counted as discarded.
+func (r *vsRun) inconclusive(reason, detail string) {
+	r.c.Discard(reason)
+	r.c.Count("inconclusive_hangs", 1)
+	fmt.Fprintf(os.Stderr, "inconclusive case (%s): %s\nhistory: %s\n", reason, detail, strings.Join(r.hist, " | "))
+	r.rt.Skip("inconclusive: " + reason)
+}
+
 func (r *vsRun) apiCall(desc string, f func() error) error {
 	err, hung := c11Call(f)
+	if hung && r.hangInconclusive {
+		r.inconclusive("call-did-not-return", desc+" did not return within 15s\n"+veBlockedGoroutines())
+	}
 	if hung {
 		r.fatalf("%s did not return within 15s (service hangs)\nblocked goroutines of the service:\n%s", desc, veBlockedGoroutines())
 	}
